@@ -92,4 +92,10 @@ PROPS = {
         'assumptions': COMMON_ASSUMPTIONS + ["DefaultKeyBuilder (seahash + seeded xxh64) and std::hash are not modelled: determinism and borrowed-form agreement are tested by the harness"],
         'partial': "determinism of DefaultKeyBuilder is a test of an unmodelled function",
     },
+    'C06': {
+        'suites': [('caches', 500, 5000, ''), ('cachesa', 250, 2500, ''), ('cachet', 150, 1500, '')],
+        'rule': CACHE_RULE % "Cache and AsyncCache" + "three client threads, random interleavings at every yield point (between policy.add and store.try_insert, before each victim, between policy.remove and store.try_remove of a Delete and of a sweep, inside clear), evictions, rejections, sweeps, clears; snapshot equality after every segment checks both sides of the agreement; monitor: at every quiescent point resident keys = charged keys; the corpus replays known finding D9 (index collision)",
+        'assumptions': COMMON_ASSUMPTIONS + ["keys are told apart by their index hash (all conflict hashes 0): with colliding keys the statement is false (known finding D9, machine-checked witness C06_collision_refuted)", "no remove reported an error (a Delete lost to a full insert buffer): the property's own exclusion"],
+        'partial': "",
+    },
 }
